@@ -36,6 +36,9 @@ func ParseTimestamp(s string) (Timestamp, error) {
 	if err != nil {
 		return 0, fmt.Errorf("invalid timestamp: %s", err)
 	}
+	if u := t.Unix(); !t.IsZero() && (u < 0 || u > math.MaxUint32) {
+		return 0, fmt.Errorf("invalid timestamp: %s: out of range", s)
+	}
 	return TimestampFromStdTime(t), nil
 }
 
